@@ -13,6 +13,7 @@ import Mahotas.Proofs.C13Filter
 import Mahotas.Proofs.C13Oracles
 import Mahotas.Proofs.C13OraclesNum
 import Mahotas.Proofs.C13OraclesFloat
+import Mahotas.Proofs.C13Wrappers
 import Mahotas.Proofs.Modes
 open Mahotas Mahotas.C13
 
@@ -546,3 +547,86 @@ theorem C13_mode_codes_agree (m : Mahotas.Mode) :
     (Mahotas.Generated.pyModes.lookup m.name = some m.code ∧ Mahotas.Generated.cppModes.lookup m.name = some m.code) ∧
     Mahotas.Generated.pyModes.length = 6 ∧ Mahotas.Generated.cppModes.length = 6 :=
   ⟨Mahotas.mode_codes_agree m, Mahotas.mode_tables_complete.1, Mahotas.mode_tables_complete.2.1⟩
+
+/-! ## Round 4 — the Python wrappers around the kernels (`bbox.py`, `labeled.py`, `histogram.py`) -/
+
+/-- **C13 (remove_regions_where).** The model of `remove_regions_where(labeled, conditions)` — `np.where(conditions)`
+(the indices of the true entries) handed to the model of `remove_regions` (`np.unique` + `std::binary_search`) — zeroes
+exactly the pixels whose label `v` satisfies `0 ≤ v < len(conditions)` and `conditions[v]`; every other pixel (labels beyond
+the table, negative labels, background) keeps its value. Any `conditions` (empty, shorter or longer than the label range). -/
+theorem C13_remove_regions_where_spec (labels conds : List Int) :
+    removeRegionsWhere labels conds = removeRegionsWhereSpec labels conds :=
+  removeRegionsWhere_eq_spec labels conds
+
+/-- **C13 (is_same_labeling, unequal shapes).** The wrapper's answer (`shape0 != shape1 → False`, else the kernel) is `true`
+exactly when the two maps have the same shape and their label pairs together with `(0, 0)` form a partial bijection; the
+executable oracle `sameSpecShaped` the harness judges against is the model. Maps of different shapes — also of equal size,
+e.g. `(2,3)` against `(3,2)` — are never the same labeling. -/
+theorem C13_same_labeling_shaped_iff (s0 s1 : List Nat) (a b : List Int) :
+    (isSameLabelingShaped s0 s1 a b = true ↔ s0 = s1 ∧ PBij (fun x y => (x = 0 ∧ y = 0) ∨ (x, y) ∈ a.zip b)) ∧
+    sameSpecShaped s0 s1 a b = isSameLabelingShaped s0 s1 a b := by
+  constructor
+  · unfold isSameLabelingShaped
+    rw [Bool.and_eq_true, beq_iff_eq, C13_same_labeling_iff]
+  · unfold isSameLabelingShaped sameSpecShaped
+    rw [C13_same_oracle_eq_model]
+
+/-- **C13 (labeled_size through `astype(uint32)`).** For every label list (any integers): the model of `labeled_size` —
+reduce modulo 2^32, then `compute_histogram` into `max + 1` bins, also for a bool map — returns in bin `i` the number of
+pixels whose label is `i` modulo 2^32 (`countSpec`); for labels in `[0, 2^32)` (every map `label()` produces) that is the
+number of pixels labelled `i`, and there are `max + 1` bins. -/
+theorem C13_labeled_size_counts (vals : List Int) :
+    countSpec (vals.map (· % 4294967296)) (labeledSize vals).length = labeledSize vals ∧
+    ((∀ v ∈ vals, 0 ≤ v ∧ v < 4294967296) →
+      countSpec vals ((maxOf vals).toNat + 1) = labeledSize vals) := by
+  refine ⟨labeledSize_counts vals, fun hv => ?_⟩
+  have h := labeledSize_counts vals
+  rw [map_emod_id vals hv] at h
+  have hl : (labeledSize vals).length = (maxOf vals).toNat + 1 := by
+    unfold labeledSize
+    rw [map_emod_id vals hv]
+    unfold fullHistogram
+    simp only [Bool.false_eq_true, if_false, Array.length_toList, histogram_size]
+  rw [← hl]
+  exact h
+
+/-- **C13 (labeled_sum with `minlength`).** The wrapper allocates `foldLen = max(labeled.max() + 1, minlength)` slots
+(`labeled.max() + 1` without `minlength`), so the result covers every label and has at least `minlength` entries; and in
+the model of `labeled_foldl` (any value type, operation and identity — the driver's `Int` and `Float` instances included)
+every slot beyond the largest label holds the identity element (0 for `labeled_sum`): no pixel carries that label. -/
+theorem C13_labeled_sum_minlength {α : Type} (f : α → α → α) (start : α) (data : List α) (labels : List Int)
+    (ml : Option Int) :
+    ((maxOf labels + 1).toNat ≤ foldLen labels ml ∧ (∀ m, ml = some m → m.toNat ≤ foldLen labels ml) ∧
+      (ml = none → foldLen labels ml = (maxOf labels + 1).toNat)) ∧
+    ∀ l : Nat, l < foldLen labels ml → maxOf labels < (l : Int) →
+      (labeledFold f start (foldLen labels ml) (data.zip labels))[l]? = some start := by
+  refine ⟨foldLen_ge labels ml, fun l hl hgt => ?_⟩
+  rw [labeledFold_slot f start _ _ l hl, valuesOf_nil_of_gt data labels l hgt]
+  rfl
+
+/-- **C13 (bbox with `border`, `as_slice`, croptobbox).** Let `box = [lo_0, hi_0, lo_1, hi_1, …]` be a list of non-negative
+numbers (the result of `bbox`, characterised by `C13_bbox_result`/`C13_bbox_oracle_sound`) and `b ≥ 0`. The model of
+`croptobbox(img, border=b)` — `bbox`'s arithmetic `(max(lo - b, 0), hi + b)` (upper end not clipped), Python's slice
+semantics per axis (`sliceBound`: clipping to the axis length) and the indexing `img[slices]` — shows exactly the pixels
+`p` of the image with `lo_d - b ≤ p_d < hi_d + b` on every axis, in C order: the box grown by `b` and clipped to the image.
+In particular (`b = 0`) the crop contains every pixel of the box, hence every non-zero pixel. -/
+theorem C13_croptobbox_border_spec (shape : List Nat) (box : List Int) (b : Int) (hb : 0 ≤ b)
+    (hlen : box.length = 2 * shape.length) (hnn : ∀ k, 0 ≤ box.getD k 0) :
+    (cropTo shape (bboxBorder box b)).2 = cropSpec shape box b :=
+  cropTo_eq_spec shape box b hb hlen hnn
+
+/-! non-vacuity of the round-4 wrapper theorems: concrete evaluations (a 3 × 4 image whose box `[1,2,1,3]` is grown by 1 and
+    clipped; negative border through Python's negative-index rule; labels beyond 2^32; a `conditions` table shorter than the
+    label range; equal-size maps of different shapes) -/
+example : bboxBorder [1, 2, 1, 3] 1 = [0, 3, 0, 4] ∧ bboxBorder [1, 2, 1, 3] 5 = [0, 7, 0, 8] ∧
+    cropTo [3, 4] (bboxBorder [1, 2, 1, 3] 1) = ([3, 4], [0, 1, 2, 3, 4, 5, 6, 7, 8, 9, 10, 11]) ∧
+    cropTo [3, 4] [1, 2, 1, 3] = ([1, 2], [5, 6]) ∧ cropSpec [3, 4] [1, 2, 1, 3] 0 = [5, 6] ∧
+    cropTo [4, 5] (bboxBorder [1, 3, 2, 5] (-3)) = ([0, 0], []) ∧ sliceBound 5 (-1) = 4 ∧ sliceBound 5 9 = 5 ∧
+    labeledSize [4294967297, 0, 1] = [1, 2] ∧ labeledSize [1, 0, 1] = [1, 2] ∧
+    foldLen [0, 2, 2] (some 5) = 5 ∧ foldLen [0, 2, 2] none = 3 ∧ foldLen [0, 2, 2] (some (-5)) = 3 ∧
+    isSameLabelingShaped [2, 3] [3, 2] [1, 0, 1, 2, 2, 0] [1, 0, 1, 2, 2, 0] = false ∧
+    isSameLabelingShaped [2, 3] [2, 3] [1, 0, 1, 2, 2, 0] [5, 0, 5, 7, 7, 0] = true := by
+  decide
+
+example : removeRegionsWhere [0, 1, 1, 2, 2, 3] [0, 1, 0] = [0, 0, 0, 2, 2, 3] := by
+  rw [C13_remove_regions_where_spec]; decide
